@@ -222,6 +222,23 @@ func run(c *hc.Ctx) error {
 		if len(key) != 16 && len(key) != 24 {
 			q.Add(line, impl)
 		}
+		// DataWithHash directly: SHA1(data) ++ data ++ 0..15 bytes from the reader, length a multiple of 16
+		if r.Chance(10) {
+			d := r.Bytes(hc.Pick(r, 0, 1, 11, 12, 13, 27, 28, 29, r.Range(0, 100)))
+			rnd := r.Bytes(31)
+			w, err := crypto.DataWithHash(d, bytes.NewReader(rnd))
+			wl := fmt.Sprintf("dwh %s %s", hc.Hex(rnd), hc.Hex(d))
+			c.Count("op.DataWithHash")
+			if err != nil {
+				c.Fail("datawithhash-error", wl, err.Error())
+			} else {
+				if len(w)%16 != 0 || len(w) < 20+len(d) || len(w)-20-len(d) > 15 || !bytes.Equal(w[:20], sum(d)) || !bytes.Equal(w[20:20+len(d)], d) {
+					c.Fail("datawithhash-malformed", wl, fmt.Sprintf("%d bytes for %d bytes of data", len(w), len(d)))
+				}
+				q.Add(wl, "ok "+hc.Hex(w))
+				rt.Keep("DataWithHash", wl, func() []byte { return w })
+			}
+		}
 		// GuessDataWithHash on the decrypted bytes / on random bytes
 		if r.Chance(30) {
 			var d []byte
